@@ -41,6 +41,9 @@ class ProductWorld(object):
         self.last_detail = None
 
     # ---- engine interface
+    needs_replay = classmethod(lambda cls: World.needs_replay())
+    reset_process_state = classmethod(lambda cls: World.reset_process_state())
+
     def snapshot(self):
         return pickle.dumps((self.base.snapshot(), self.var.snapshot(), self.switched), -1)
 
@@ -78,7 +81,7 @@ class ProductWorld(object):
                 if not self.switched and not (self.T == "g92" and (self.base.episode or self.var.episode)):
                     out.append(i)
                 continue
-            if j in eb:
+            if j in eb and not (self.switched and ev in self.cfg.get("pre_switch_only", ())):
                 out.append(i)
             j += 1
         return out
